@@ -363,7 +363,7 @@ class FSM:
             and self.transitioning != Status.active
         ):
             raise transitions.MachineError(
-                f'While in {self.state} cannot be {status.name()} while {self.__transitioning.name}'
+                f'While in {self.state} cannot be {status.name} while {self.__transitioning.name}'
             )
         self.__transitioning = status
 
